@@ -83,8 +83,9 @@ type Input struct {
 	Conc      int64    `json:"conc,omitempty"`
 	TimeoutMs uint64   `json:"timeout_ms,omitempty"`
 	Nodes     []Node   `json:"nodes,omitempty"`
-	Trace     bool     `json:"trace,omitempty"` // run vouch at zerolog.TraceLevel instead of Disabled
+	Trace     bool     `json:"trace,omitempty"`   // run vouch at zerolog.TraceLevel instead of Disabled
 	Variant   int      `json:"variant,omitempty"` // proposal: fork version / blinded
+	Warm      int      `json:"warm,omitempty"`    // submit: identical submissions made on the same service instance before the observed one
 	Tags      []string `json:"tags,omitempty"`
 }
 
@@ -227,6 +228,7 @@ type recorder struct {
 	closed  bool
 	release chan struct{}
 	seq     int
+	warming bool // calls made by the warm-up submissions are not recorded
 }
 
 type nodeCore struct {
@@ -261,8 +263,10 @@ func (n *nodeCore) do(ctx context.Context, ids []uint64) error {
 		n.rec.mu.Unlock()
 		return errors.New("scenario over")
 	}
-	n.touchLocked()
-	n.calls = append(n.calls, Call{At: uint64(time.Since(n.rec.start) / time.Millisecond), IDs: ids})
+	if !n.rec.warming {
+		n.touchLocked()
+		n.calls = append(n.calls, Call{At: uint64(time.Since(n.rec.start) / time.Millisecond), IDs: ids})
+	}
 	n.rec.mu.Unlock()
 	b := n.behFor(ids)
 	if b.Hang {
@@ -374,7 +378,7 @@ type nodeV struct{ *nodeCore }
 
 func (n nodeV) NodeVersion(_ context.Context, _ *api.NodeVersionOpts) (*api.Response[string], error) {
 	n.rec.mu.Lock()
-	if !n.rec.closed {
+	if !n.rec.closed && !n.rec.warming {
 		n.touchLocked()
 	}
 	n.rec.mu.Unlock()
@@ -502,59 +506,85 @@ func runSubmit(t *testing.T, in Input) Obs {
 		if err != nil {
 			t.Fatalf("multinode constructor: %v", err)
 		}
-		n := in.Len
-		switch in.Kind {
-		case "attestations":
-			xs := make([]*phase0.Attestation, n)
-			for i := range xs {
-				d := attData()
-				d.Index = phase0.CommitteeIndex(i)
-				xs[i] = &phase0.Attestation{AggregationBits: []byte{0x03}, Data: d}
+		submit := func() error {
+			var err error
+			n := in.Len
+			switch in.Kind {
+			case "attestations":
+				xs := make([]*phase0.Attestation, n)
+				for i := range xs {
+					d := attData()
+					d.Index = phase0.CommitteeIndex(i)
+					xs[i] = &phase0.Attestation{AggregationBits: []byte{0x03}, Data: d}
+				}
+				err = svc.SubmitAttestations(ctx, xs)
+			case "proposal":
+				err = svc.SubmitProposal(ctx, proposal)
+			case "aggregates":
+				xs := make([]*phase0.SignedAggregateAndProof, n)
+				for i := range xs {
+					xs[i] = &phase0.SignedAggregateAndProof{Message: &phase0.AggregateAndProof{AggregatorIndex: phase0.ValidatorIndex(i),
+						Aggregate: &phase0.Attestation{AggregationBits: []byte{0x03}, Data: attData()}}}
+				}
+				err = svc.SubmitAggregateAttestations(ctx, xs)
+			case "syncmessages":
+				xs := make([]*altair.SyncCommitteeMessage, n)
+				for i := range xs {
+					xs[i] = &altair.SyncCommitteeMessage{Slot: 12345, ValidatorIndex: phase0.ValidatorIndex(i)}
+				}
+				err = svc.SubmitSyncCommitteeMessages(ctx, xs)
+			case "synccontributions":
+				xs := make([]*altair.SignedContributionAndProof, n)
+				for i := range xs {
+					xs[i] = &altair.SignedContributionAndProof{Message: &altair.ContributionAndProof{AggregatorIndex: phase0.ValidatorIndex(i),
+						Contribution: &altair.SyncCommitteeContribution{Slot: 12345}}}
+				}
+				err = svc.SubmitSyncCommitteeContributions(ctx, xs)
+			case "beaconsubs":
+				xs := make([]*apiv1.BeaconCommitteeSubscription, n)
+				for i := range xs {
+					xs[i] = &apiv1.BeaconCommitteeSubscription{ValidatorIndex: phase0.ValidatorIndex(i), Slot: 12345}
+				}
+				err = svc.SubmitBeaconCommitteeSubscriptions(ctx, xs)
+			case "syncsubs":
+				xs := make([]*apiv1.SyncCommitteeSubscription, n)
+				for i := range xs {
+					xs[i] = &apiv1.SyncCommitteeSubscription{ValidatorIndex: phase0.ValidatorIndex(i)}
+				}
+				err = svc.SubmitSyncCommitteeSubscriptions(ctx, xs)
+			case "proposalpreps":
+				xs := make([]*apiv1.ProposalPreparation, n)
+				for i := range xs {
+					xs[i] = &apiv1.ProposalPreparation{ValidatorIndex: phase0.ValidatorIndex(i)}
+				}
+				err = svc.SubmitProposalPreparations(ctx, xs)
+			default:
+				t.Fatalf("unknown kind %q", in.Kind)
 			}
-			err = svc.SubmitAttestations(ctx, xs)
-		case "proposal":
-			err = svc.SubmitProposal(ctx, proposal)
-		case "aggregates":
-			xs := make([]*phase0.SignedAggregateAndProof, n)
-			for i := range xs {
-				xs[i] = &phase0.SignedAggregateAndProof{Message: &phase0.AggregateAndProof{AggregatorIndex: phase0.ValidatorIndex(i),
-					Aggregate: &phase0.Attestation{AggregationBits: []byte{0x03}, Data: attData()}}}
-			}
-			err = svc.SubmitAggregateAttestations(ctx, xs)
-		case "syncmessages":
-			xs := make([]*altair.SyncCommitteeMessage, n)
-			for i := range xs {
-				xs[i] = &altair.SyncCommitteeMessage{Slot: 12345, ValidatorIndex: phase0.ValidatorIndex(i)}
-			}
-			err = svc.SubmitSyncCommitteeMessages(ctx, xs)
-		case "synccontributions":
-			xs := make([]*altair.SignedContributionAndProof, n)
-			for i := range xs {
-				xs[i] = &altair.SignedContributionAndProof{Message: &altair.ContributionAndProof{AggregatorIndex: phase0.ValidatorIndex(i),
-					Contribution: &altair.SyncCommitteeContribution{Slot: 12345}}}
-			}
-			err = svc.SubmitSyncCommitteeContributions(ctx, xs)
-		case "beaconsubs":
-			xs := make([]*apiv1.BeaconCommitteeSubscription, n)
-			for i := range xs {
-				xs[i] = &apiv1.BeaconCommitteeSubscription{ValidatorIndex: phase0.ValidatorIndex(i), Slot: 12345}
-			}
-			err = svc.SubmitBeaconCommitteeSubscriptions(ctx, xs)
-		case "syncsubs":
-			xs := make([]*apiv1.SyncCommitteeSubscription, n)
-			for i := range xs {
-				xs[i] = &apiv1.SyncCommitteeSubscription{ValidatorIndex: phase0.ValidatorIndex(i)}
-			}
-			err = svc.SubmitSyncCommitteeSubscriptions(ctx, xs)
-		case "proposalpreps":
-			xs := make([]*apiv1.ProposalPreparation, n)
-			for i := range xs {
-				xs[i] = &apiv1.ProposalPreparation{ValidatorIndex: phase0.ValidatorIndex(i)}
-			}
-			err = svc.SubmitProposalPreparations(ctx, xs)
-		default:
-			t.Fatalf("unknown kind %q", in.Kind)
+			return err
 		}
+		// A submission must not depend on what earlier submissions on the same service left behind
+		// (goroutines still waiting for a hanging or slow node): the warm-up calls are not recorded
+		// and the observed call is compared with the model of a single, independent submission.
+		if in.Warm > 0 {
+			rec.mu.Lock()
+			rec.warming = true
+			rec.mu.Unlock()
+			for k := 0; k < in.Warm; k++ {
+				t0 := time.Now()
+				_ = submit()
+				// let every warm-up call that ever returns return (only hanging calls stay behind)
+				if d := horizon(in) - time.Since(t0); d > 0 {
+					time.Sleep(d)
+				}
+				synctest.Wait()
+			}
+			rec.mu.Lock()
+			rec.warming = false
+			rec.start = time.Now()
+			rec.mu.Unlock()
+		}
+		err = submit()
 		obs.Success = err == nil
 		obs.Ret = millis(time.Since(rec.start))
 		// let everything that ever finishes finish, then end the scenario
@@ -1190,6 +1220,15 @@ func genSubmit(r *Rand) Input {
 		for i := range nd {
 			nd[i].Default = genBeh(r, in.Kind, nd[i].Client, T)
 		}
+	}
+	// earlier submissions on the same service instance (a hanging node keeps their goroutines alive)
+	if fam == 3 && r.Chance(2, 3) {
+		in.Warm = r.Range(1, int(in.Conc)+2)
+	} else if r.Chance(1, 6) {
+		in.Warm = r.Range(1, 3)
+	}
+	if in.Warm > 0 {
+		in.Tags = append(in.Tags, "after-earlier-submissions")
 	}
 	// chunk-specific behaviour: only attestations are split, but the rule is the same everywhere
 	if in.Kind == "attestations" && in.Len > 1 && r.Chance(1, 2) || in.Len > 0 && r.Chance(1, 25) {
